@@ -102,11 +102,11 @@ def handle (j : Json) : Json :=
       let pv := getBool c "pv"
       let r := addCore (!old) (fun _ => pv) (Gen.Members.table.getMembers parent.cls)
                 ⟨getBool c "en", getBool c "val"⟩ parent child hint (getBool c "force")
-      let out := match r.2 with
-        | .ok (o, w) => Json.mkObj [("r", "ok"), ("w", warnJ w), ("ret", o.oid), ("ch", Json.arr (diff parent r.1).toArray)]
-        | .error e => Json.mkObj [("r", "err:" ++ errTag e), ("w", .null), ("ret", .null),
-                                   ("ch", Json.arr (diff parent r.1).toArray)]
-      (r.1, out :: acc.2)
+      let ch := Json.arr (diff parent r.parent).toArray
+      let out := match r.result with
+        | .ok o => Json.mkObj [("r", "ok"), ("w", warnJ r.warn), ("ret", o.oid), ("ch", ch)]
+        | .error e => Json.mkObj [("r", "err:" ++ errTag e), ("w", warnJ r.warn), ("ret", .null), ("ch", ch)]
+      (r.parent, out :: acc.2)
     let fin := (getArr j "calls").foldl step (parseObj (getObj j "parent"), [])
     Json.mkObj [("res", Json.arr fin.2.reverse.toArray)]
   | _ => Json.mkObj [("error", "unknown op")]
